@@ -119,18 +119,25 @@ def drive(sc):
 def model_runs(tier):
     if tier == "quick":
         return [{"module": "MC_C08", "constants": {"NNL": 2, "NLIN": 1}},
-                {"module": "MC_C08", "constants": {"NNL": 1, "NLIN": 3, "Methods": '{"slsqp", "differential_evolution"}'}}]
+                {"module": "MC_C08", "constants": {"NNL": 1, "NLIN": 3, "Methods": '{"slsqp", "differential_evolution"}'}},
+                # one of the two constraint sets absent (so that a rejection can only come from the other one)
+                {"module": "MC_C08", "constants": {"NNL": 2, "NLIN": 0}},
+                {"module": "MC_C08", "constants": {"NNL": 0, "NLIN": 2}}]
     return [{"module": "MC_C08", "constants": {"NNL": 2, "NLIN": 2, "Methods": '{"slsqp", "cobyla", "differential_evolution"}'}, "heap": "8g"},
             {"module": "MC_C08", "constants": {"NNL": 3, "NLIN": 1, "Methods": '{"slsqp", "differential_evolution"}'}, "heap": "8g"},
             {"module": "MC_C08", "constants": {"NNL": 1, "NLIN": 3, "Methods": '{"slsqp", "cobyla"}'}, "heap": "8g"},
             {"module": "MC_C08", "constants": {"NNL": 2, "NLIN": 1,
-                                               "Methods": '{"l-bfgs-b", "tnc", "nelder-mead", "powell", "bfgs", "cg", "newton-cg"}'}}]
+                                               "Methods": '{"l-bfgs-b", "tnc", "nelder-mead", "powell", "bfgs", "cg", "newton-cg"}'}},
+            {"module": "MC_C08", "constants": {"NNL": 3, "NLIN": 0,
+                                               "Methods": '{"slsqp", "cobyla", "l-bfgs-b", "tnc", "nelder-mead", "powell", "bfgs", "cg", "newton-cg"}'}},
+            {"module": "MC_C08", "constants": {"NNL": 0, "NLIN": 3,
+                                               "Methods": '{"slsqp", "cobyla", "l-bfgs-b", "tnc", "nelder-mead", "powell", "bfgs", "cg", "newton-cg"}'}}]
 
 
 CHECK = PropertyCheck(
     prop="C08", trace_module="Trace_C08", drive=drive, model_runs=model_runs,
     rule=("TLC enumerates every combination of constraint kinds {eq, lower, upper, two-sided, unbounded} over the non-linear and linear "
-          "constraints (2+1 and 1+3 quick; 2+2, 3+1, 1+3 thorough) x method x mask x options in {None, {}, dict} x max_iterations, checking the "
+          "constraints (2+1, 1+3, 2+0 and 0+2 quick; 2+2, 3+1, 1+3, 3+0, 0+3 thorough) x method x mask x options in {None, {}, dict} x max_iterations, checking the "
           "normalisation against configured feasibility; the arguments captured from the plug-in are evaluated on a 4x4 integer grid and "
           "compared with the configured problem by Trace_C08 (bounds object, rows or constraint objects, Jacobian = derivative, iteration "
           "limit). Non-trivial: >=2 different kinds, or a mask with a retained linear row."),
